@@ -37,7 +37,7 @@ ASSUMPTIONS = ['IEEE rounding is not modelled: av / chi2 are compared with a 1e-
                'distances, A_V clamp, limit side, theta*dmin against the smallest aperture) are counted as margin_relaxed '
                'and not compared',
                'tables are increasing in aperture; theta*dmin is never below the smallest aperture (the quantifier)']
-N = {'quick': 120, 'thorough': 2000}
+N = {'quick': 120, 'thorough': 5000}
 FLAGS = [0, 1, 2, 3, 4, 9]
 MARGIN = 1e-7
 
